@@ -41,6 +41,8 @@ def seq_of(fn, e, depth=0, upto=None):
             return seq_of(fn, e["recv"], depth + 1, upto)
         if m == "chain" and e["args"]:
             return seq_of(fn, e["recv"], depth + 1, upto) + seq_of(fn, e["args"][0], depth + 1, upto)
+        if m == "drain" and e["args"] and "RangeFull" in (hir.peel(e["args"][0]).get("ty") or ""):
+            return seq_of(fn, e["recv"], depth + 1, upto)
         if m == "rev":
             return [("rev", seq_of(fn, e["recv"], depth + 1, upto))]
         return [("?", "method %s" % m)]
@@ -91,7 +93,20 @@ def seq_of(fn, e, depth=0, upto=None):
                 items = items + [("?", "mutation %s" % m)]
         return items
     if k == "Field":
-        return [("all", hir.place(e), e)]
+        # a collection held in a field: what it held, then what this function has appended to it so far
+        pl = hir.place(e)
+        items = [("all", pl, e)]
+        muts = [n for n in fn.nodes() if hir.is_call(n) and (hir.callee_name(n) or n.get("method")) in MUTATORS and hir.call_args(n) and pl is not None and hir.place(hir.call_args(n)[0]) == pl and (upto is None or n["id"] < upto) and n["id"] < e.get("id", 1 << 62)]
+        for n in sorted(muts, key=lambda x: x["id"]):
+            m = hir.callee_name(n) or n.get("method")
+            a = hir.call_args(n)
+            if m == "push":
+                items = items + [("one", a[1])]
+            elif m in ("append", "extend", "extend_from_slice"):
+                items = items + seq_of(fn, a[1], depth + 1, None)
+            else:
+                items = items + [("?", "mutation %s" % m)]
+        return items
     return [("?", k)]
 
 
